@@ -23,7 +23,11 @@ def _family(v, fam, props, scenarios, requests, extra=()):
     samples = []
     for e in lib.read_ndjson(trace, 60):
         if e.get("ev") == "search":
-            samples.append({"request": e.get("req", ""), "abstract_query": e.get("q"), "observed_ids": e["obs"].get("ids")})
+            obs = e.get("obs") or (e.get("full") or {}) or {}
+            if not obs and e.get("variants"):
+                obs = e["variants"][0].get("obs", {})
+            samples.append({"check": e.get("check"), "request": e.get("req", ""), "abstract_query": e.get("q", ""),
+                            "observed_ids": obs.get("ids", [])})
             if len(samples) >= 3:
                 break
     s["samples"] = samples
@@ -122,3 +126,122 @@ CHECK_DEADLOCK FALSE
         "absolute BM25 values are asserted on corpora without deleted documents (segment statistics unambiguous) and for queries without function_score wrappers",
         "k1 = 1.2, b = 0.75 (the harness's IndexOptions)",
     ]
+
+
+WAND_CFG = """SPECIFICATION Spec
+CONSTANTS
+  Terms = {{"t1", "t2"}}
+  NDocs = {ndocs}
+  W = 2
+  KMax = 2
+  BlockSizes = {blocks}
+  Mults = {mults}
+  Mode = "{mode}"
+  NoPruneWithHook = {noprune}
+INVARIANT PrunedEqualsExhaustive
+PROPERTY Progress
+CHECK_DEADLOCK FALSE
+"""
+
+
+def _wand_mc(v):
+    """Wand.tla: the pruned loop equals exhaustive evaluation; the two repaired defects are refuted as built."""
+    quick = v.tier == "quick"
+    nd = 4 if quick else 5
+    total_states = 0
+    total_trans = 0
+    runs = [("wand", "{1}", "{1}", "wand", "TRUE"), ("bmw_safe", "{1, 2}", "{1}", "bmw_safe", "TRUE")]
+    if not quick:
+        runs.append(("hook", "{1, 2}", "{1, 2}", "bmw_safe", "TRUE"))
+    for name, blocks, mults, mode, noprune in runs:
+        cfg = _cfg(f"MC_Wand_{name}_run.cfg", WAND_CFG.format(ndocs=nd if name != "hook" else 4, blocks=blocks, mults=mults, mode=mode, noprune=noprune))
+        r = lib.tlc_mc("Wand.tla", cfg, timeout=5000, coverage=False)
+        lib.require_mc_ok(r, f"Wand {name}")
+        total_states += r["distinct"]
+        total_trans += r["states"]
+    refuted = []
+    for name, blocks, mults, mode, noprune in [("bmw_cur", "{1, 2}", "{1}", "bmw_cur", "TRUE"), ("hook_prunes", "{1}", "{1, 2}", "wand", "FALSE")]:
+        cfg = _cfg(f"MC_Wand_{name}_run.cfg", WAND_CFG.format(ndocs=4, blocks=blocks, mults=mults, mode=mode, noprune=noprune))
+        r = lib.tlc_mc("Wand.tla", cfg, timeout=1800, coverage=False)
+        lib.expect_mc_violation(r, f"Wand {name}", {"PrunedEqualsExhaustive"})
+        refuted.append(name)
+    return total_states, total_trans, refuted
+
+
+def run_c09(v):
+    quick = v.tier == "quick"
+    states, trans, refuted = _wand_mc(v)
+    s = _family(v, "relate", {"C09"}, 8 if quick else 80, 30 if quick else 60)
+    v.coverage.update({
+        "states": states, "transitions": trans,
+        "traces_validated_against_impl": s["scenarios"], "requests_judged": s["requests"],
+        "mc_bounds": "2 terms x 4-5 documents x contributions 0..2 x k 1..2 x block sizes 1..2: heap at termination = exhaustive top-k incl. tie-break; per-term bounds, repaired block-max refinement, no pruning under a score hook",
+        "as_built_defects_refuted_by_model": refuted,
+        "samples": s["samples"], "exhaustive": False,
+    })
+    v.assumptions += [
+        "integer contributions abstract BM25 (monotone in tf); the binding to the code is by outputs: every request runs under bm25, wand, bmw with block sizes 1..300 and limits 1..50, incl. posting lists of 300-900 documents",
+        "scores of one document may differ by a few ULP between strategies (f32 summation order): rankings are compared with a 64-ulp tolerance, positions may differ only inside near-tie runs",
+    ]
+
+
+PAGING_CFG = """SPECIFICATION Spec
+CONSTANTS
+  MaxHits = {hits}
+  MaxLimit = 3
+  Strict = {strict}
+  FullKey = {fullkey}
+  FetchExtra = {fetch}
+  CheckGen = {gen}
+INVARIANT WalkComplete
+INVARIANT NoDuplicates
+INVARIANT InOrder
+INVARIANT NoEmptyLastPage
+INVARIANT CursorOnlyIfMore
+PROPERTY StaleRejected
+PROPERTY Terminates
+CHECK_DEADLOCK FALSE
+"""
+
+
+def run_c11(v):
+    quick = v.tier == "quick"
+    T, F = "TRUE", "FALSE"
+    mc = lib.tlc_mc("MC_Paging.tla", _cfg("MC_Paging_ideal_run.cfg", PAGING_CFG.format(hits=6 if quick else 8, strict=T, fullkey=T, fetch=T, gen=T)),
+                    timeout=3000, coverage=False)
+    lib.require_mc_ok(mc, "MC_Paging")
+    refuted = []
+    for name, (a, b, c, d), inv in [("nonstrict", (F, T, T, T), {"NoDuplicates", "WalkComplete", "InOrder"}),
+                                     ("visible_key_only", (T, F, T, T), {"WalkComplete", "NoDuplicates"}),
+                                     ("no_extra_fetch", (T, T, F, T), {"CursorOnlyIfMore", "NoEmptyLastPage"}),
+                                     ("no_generation_check", (T, T, T, F), {"StaleRejected", "temporal"})]:
+        r = lib.tlc_mc("MC_Paging.tla", _cfg(f"MC_Paging_{name}_run.cfg", PAGING_CFG.format(hits=6, strict=a, fullkey=b, fetch=c, gen=d)),
+                       timeout=1200, coverage=False)
+        lib.expect_mc_violation(r, f"MC_Paging {name}", inv)
+        refuted.append(name)
+    s = _family(v, "paging", {"C11"}, 8 if quick else 100, 20 if quick else 40)
+    v.coverage.update({
+        "states": mc["distinct"], "transitions": mc["states"],
+        "traces_validated_against_impl": s["scenarios"], "requests_judged": s["requests"],
+        "mc_bounds": "<= 6-8 hits with ties in the visible key, page sizes 1..3, one generation / plan change between pages",
+        "protocol_mutations_refuted_by_model": refuted,
+        "samples": s["samples"], "exhaustive": False,
+    })
+    v.assumptions += [
+        "'different index generation' is the code's notion (maximum segment generation); cursors are replayed after a commit that adds a segment, after compaction, and against another sort plan",
+        "total_hits_estimate: bounded by the number of matches on every page; exact under bm25 execution or when the query has no scored term",
+    ]
+
+
+def run_c20(v):
+    quick = v.tier == "quick"
+    s = _family(v, "relate", {"C20"}, 8 if quick else 80, 30 if quick else 60)
+    v.level = "exploration"
+    n20 = (s["requests"] + 1) // 2
+    v.coverage.update({
+        "evaluations": n20 * 4, "distinct_nontrivial": n20,
+        "rule": "random corpora (small, and 300-900 documents) and random requests (queries to depth 2 incl. function_score, filters, sort plans, limits 1..50, aggregations); each request is executed under the 4 explain/profile combinations; a request counts once; Trace_Search.tla (Rank.tla CheckSame20) requires equal ids, scores, totals, cursor strings and aggregations, and final_score = hit score",
+        "traces_validated_against_impl": s["scenarios"],
+        "samples": s["samples"], "exhaustive": False,
+    })
+    v.assumptions += ["aggregations and cursors are compared as serialised strings"]
